@@ -162,7 +162,8 @@ func r011(c *an.Ctx) {
 				}
 			}
 			c.Check(ok, rule, name+"|validate before write", g.Pos(), "GetAndUpdate only reachable when Validate returned nil", "GetAndUpdate is reachable although FieldUpdater.Validate failed: an invalid mask changes the resource")
-			for _, s := range an.CallsTo(fn, busSend) {
+			for _, vc := range an.CallsToDeep(fn, busSend) {
+				s := vc.Site
 				c.Check(an.GuardedByNilResult(s, g.(*ssa.Call), 2), rule, name+"|publish only after a successful write", s.Pos(),
 					"Bus.Send guarded by GetAndUpdate's nil error", "Bus.Send is reachable although GetAndUpdate failed: a rejected write emits an event")
 			}
@@ -179,14 +180,7 @@ func r011(c *an.Ctx) {
 					continue
 				}
 				// allow-list: Value.set send timeout (documented in C09): errors.New after errors.Is(ctx.Err(), DeadlineExceeded)
-				allowed := false
-				if t[1] == "set" {
-					for _, e := range an.GuardingEdges(r) {
-						if call, ok := e.If.Cond.(*ssa.Call); ok && an.CalleeName(call) == "errors.Is" && e.Branch {
-							allowed = true
-						}
-					}
-				}
+				allowed := t[1] == "set" && sendTimeoutError(fn, r)
 				c.Check(allowed, rule, name+"|no error after a committed write", r.Pos(), "allow-listed: send timeout of Value.set (C09)",
 					"an error is returned after the write was committed: the caller sees a failure although the contents changed")
 			}
@@ -1189,4 +1183,51 @@ func bypassPath(fn *ssa.Function, effect ssa.Instruction, field string) []*ssa.B
 		return nil
 	}
 	return path
+}
+
+// sendTimeoutError: the error returned at r is the documented publish timeout of Value.set: the return is taken
+// on errors.Is(ctx.Err(), DeadlineExceeded), either here or inside the helper that publishes (a helper the
+// rules have not seen, every error return of which is such a timeout).
+func sendTimeoutError(fn *ssa.Function, r *ssa.Return) bool {
+	isTimeoutReturn := func(x *ssa.Return) bool {
+		for _, e := range an.GuardingEdges(x) {
+			if call, ok := e.If.Cond.(*ssa.Call); ok && an.CalleeName(call) == "errors.Is" && e.Branch {
+				return true
+			}
+		}
+		return false
+	}
+	if isTimeoutReturn(r) {
+		return true
+	}
+	errOp := r.Results[len(r.Results)-1]
+	for _, vc := range an.CallsToDeep(fn, busSend) {
+		if vc.Via == nil || !vc.Must {
+			continue
+		}
+		call := vc.Site.(*ssa.Call)
+		fromHelper := false
+		for _, v := range an.ValuesAt(errOp) {
+			if v == ssa.Value(call) || an.IsExtractOf(v, call, call.Call.Signature().Results().Len()-1) {
+				fromHelper = true
+			}
+		}
+		if !fromHelper {
+			continue
+		}
+		ok := true
+		for _, hr := range an.Returns(vc.Via) {
+			he := hr.Results[len(hr.Results)-1]
+			if provablyNilAt(he, hr) {
+				continue
+			}
+			if !isTimeoutReturn(hr) {
+				ok = false
+			}
+		}
+		if ok {
+			return true
+		}
+	}
+	return false
 }
